@@ -53,7 +53,12 @@ def gen_case(rng):
                 data.add((n, RDF.type, s["id"]))
             if rng.random() < 0.5:
                 data.add((rng.choice(classes), RDFS.subClassOf, s["id"]))
-        s["comps"].append(("in", []))  # fails on every focus node
+        if rng.random() < 0.3:
+            # a property shape with targets of its own: every focus node (a literal too, whose value set is empty) is reported
+            s["path"] = ("pred", rng.choice(S.PREDS)) if rng.random() < 0.7 else ("inv", ("pred", rng.choice(S.PREDS)))
+            s["comps"].append(("mincount", 7))
+        else:
+            s["comps"].append(("in", []))  # fails on every focus node
         if not named:
             # an anonymous shape must be reachable: its target triples make it a shape
             pass
